@@ -162,6 +162,17 @@ func scalarRound(rng *rand.Rand, rec *ev.Rec) {
 	modm.Mul(&m, &m, &b) // aliasing as used by callers: Mul(&S,&S,&a), Add(&S,&S,&r)
 	s = m
 	modm.Add(&s, &s, &a)
+	// every aliasing pattern of output and operands
+	{
+		x, y := a, b
+		modm.Add(&y, &x, &y) // r == y
+		x, y = a, b
+		modm.Mul(&y, &x, &y)
+		x = a
+		modm.Add(&x, &x, &x) // all three
+		x = b
+		modm.Mul(&x, &x, &x)
+	}
 	// boundary pairs
 	p, q := genReduced(rng), genReduced(rng)
 	modm.Add(&s, &p, &q)
@@ -190,6 +201,37 @@ func scalarRound(rng *rand.Rand, rec *ev.Rec) {
 		v = u
 		if rng.Intn(2) == 0 {
 			v[rng.Intn(ls+1)] ^= 1
+		}
+	}
+	if ls >= 1 && rng.Intn(3) == 0 {
+		// equal limbs with a borrow arriving from below: v = u except that a
+		// low limb of v is larger and a higher limb of u is larger by one
+		v = u
+		lo := rng.Intn(ls)
+		hi := lo + 1 + rng.Intn(ls-lo)
+		top := modm.Element(1)<<uint(modm.BitsPerLimb) - 1
+		if u[hi] == 0 {
+			u[hi] = 1 + modm.Element(rng.Intn(5))
+			v[hi] = u[hi] - 1
+		} else {
+			v[hi] = u[hi] - 1
+		}
+		if v[lo] == top {
+			u[lo] = top - 1 - modm.Element(rng.Intn(3))
+		} else {
+			u[lo] = v[lo]
+			v[lo] = v[lo] + 1 + modm.Element(rng.Intn(2))
+			if v[lo] > top {
+				v[lo] = top
+			}
+		}
+		if rng.Intn(2) == 0 {
+			for k := lo + 1; k < hi; k++ { // all limbs in between equal and extreme
+				u[k], v[k] = 0, 0
+				if rng.Intn(2) == 0 {
+					u[k], v[k] = top, top
+				}
+			}
 		}
 	}
 	modm.LessThanVartime(&u, &v, ls)
